@@ -131,7 +131,6 @@ def _bar2musicxml(bar):
     time.appendChild(beattype)
     attributes.appendChild(time)
     bar_node.appendChild(attributes)
-    chord = doc.createElement("chord")
     for nc in bar:
         time = value.determine(nc[1])
         beat = time[0]
@@ -143,10 +142,10 @@ def _bar2musicxml(bar):
                 is_chord = True
         else:
             note_cont = [None]
-        for n in note_cont:
+        for (i, n) in enumerate(note_cont):
             note = _note2musicxml(n)
-            if is_chord:
-                note.appendChild(chord)
+            if is_chord and i > 0:
+                note.appendChild(doc.createElement("chord"))
 
             # convert the duration of the note
             duration = doc.createElement("duration")
@@ -154,9 +153,8 @@ def _bar2musicxml(bar):
             note.appendChild(duration)
 
             # check for dots
-            dot = doc.createElement("dot")
             for i in range(0, time[1]):
-                note.appendChild(dot)
+                note.appendChild(doc.createElement("dot"))
             if beat in value.musicxml:
                 type_node = doc.createElement("type")
                 type_node.appendChild(doc.createTextNode(value.musicxml[beat]))
